@@ -1334,6 +1334,8 @@ class Interp:
             return fr.f_locals
         if fn is globals:
             return fr.f_globals
+        if getattr(fn, "__module__", None) == "math" and any(isinstance(x, (sym.SymInt, sym.SymBool)) for x in args):
+            raise Unsupported("math.%s of a symbolic integer (floating point is outside the encoding)" % getattr(fn, "__name__", "?"))
         return fn(*args, **kwargs)
 
     # comprehensions
